@@ -443,7 +443,7 @@ def gen_block(rng, kind, keys):
             depth += 1
         prog.append(c)
         if raise_after == i:
-            prog.append({'op': 'raise_in_block'})
+            prog.append({'op': 'raise_in_block', 'base': True} if rng.random() < 0.3 else {'op': 'raise_in_block'})
         if depth > 1 and rng.random() < 0.4:
             prog.append({'op': 'end_block'})
             depth -= 1
@@ -546,7 +546,33 @@ def corpus():
                        {'op': 'begin_block'}, {'op': 'incr', 'key': 'c', 'retry': t}, {'op': 'raise_in_block'}, {'op': 'end_block'}, {'op': 'end_block'}, {'op': 'end_block'}]
                       + readback('cache', ['a', 'b', 'c']), [{'op': 'get', 'key': 'a'}, {'op': 'contains', 'key': 'b'}, {'op': 'len'}]],
          'schedule': [0, 0, 0, 1, 0, 0, 0, 1, 0, 0, 1] + [0] * 30, 'flavour': 'abort_solo', 'shards': 2},
+        # the same kind of abort by an exception that is not an Exception (KeyboardInterrupt, SystemExit, ...), then more work by the
+        # same client and by another one: the block must be rolled back, the lock released, later calls committed
+        {'check': 'block', 'kind': 'cache', 'mode': 'own', 'setup': [{'op': 'set', 'key': 'a', 'value': 1}],
+         'programs': [[{'op': 'begin_block'}, {'op': 'set', 'key': 'a', 'value': 7, 'retry': t}, {'op': 'incr', 'key': 'c', 'retry': t},
+                       {'op': 'raise_in_block', 'base': True}, {'op': 'end_block'}, {'op': 'set', 'key': 'd', 'value': 4, 'retry': False}]
+                      + readback('cache', ['a', 'c', 'd']), [{'op': 'set', 'key': 'e', 'value': 5, 'retry': False}, {'op': 'get', 'key': 'a'}, {'op': 'get', 'key': 'd'}]],
+         'schedule': [0] * 60 + [1] * 20, 'flavour': 'abort_then_work', 'shards': 2},
     ]
+
+
+def handover_cases(ctx):
+    """Two threads sharing ONE Cache object: a single write (client 1) ends while the block client (client 0) is queueing
+    for the lock.  The scheduler can switch threads right after a BEGIN / COMMIT / ROLLBACK statement has executed
+    (sched.Tracer after_txn), so every placement of the block's BEGIN relative to the writer's COMMIT and to the
+    ownership bookkeeping around them is tried."""
+    t = True
+    out = []
+    for writer in ([{'op': 'set', 'key': 'a', 'value': 1, 'retry': t}], [{'op': 'delete', 'key': 'zz', 'retry': t}]):
+        programs = [[{'op': 'begin_block'}, {'op': 'set', 'key': 'b', 'value': 2, 'retry': False}, {'op': 'incr', 'key': 'c', 'retry': False},
+                     {'op': 'end_block'}] + readback('cache', ['a', 'b', 'c']), writer]
+        seqs = concdrv.solo_events(ctx, programs, settings=SETTINGS, setup=[], kind='cache', mode='shared')
+        for i in range(1, len(seqs[1]) + 1):
+            for j in range(1, 7):
+                for k in range(0, 3):
+                    out.append({'check': 'block', 'kind': 'cache', 'mode': 'shared', 'setup': [], 'programs': programs, 'flavour': 'handover', 'shards': 2,
+                                'schedule': [1] * i + [0] * j + [1] * k + [0] * 3 + [1] * 40 + [0] * 120})
+    return out
 
 
 # ---------------------------------------------------------------------------
@@ -623,6 +649,10 @@ def run(ctx, big=False):
             res.extra.setdefault('witnesses_no_longer_failing', []).append(sig)
     for case in corpus():
         run_case(ctx, res, stats, case, 'corpus')
+    for n, case in enumerate(handover_cases(ctx)):
+        run_case(ctx, res, stats, case, 'handover:%d' % n, record=n < 10)
+        if c05.enough(res, ID, EXPECTED_SIGS):
+            break
     plan = [('cache', 600), ('deque', 150), ('index', 150), ('fanout', 100)] if not thorough else \
         [('cache', 5000), ('deque', 1500), ('index', 1500), ('fanout', 1000)]
     for kind, n in plan:
